@@ -1006,12 +1006,7 @@ where
             JSXElementName::JSXMemberExpr(JSXMemberExpr { prop, .. }) => &*prop.sym,
             JSXElementName::JSXNamespacedName(JSXNamespacedName { name, .. }) => &*name.sym,
         };
-        let should_transformed_to_slots = !self
-            .vue_imports
-            .get(FRAGMENT)
-            .map(|ident| &*ident.sym == name)
-            .unwrap_or_default()
-            && name != KEEP_ALIVE;
+        let should_transformed_to_slots = !is_fragment_name(name) && name != KEEP_ALIVE;
 
         if matches!(element_name, JSXElementName::JSXMemberExpr(..)) {
             should_transformed_to_slots
@@ -1455,6 +1450,16 @@ where
             Expr::Lit(Lit::Str(quote_str!(name.sym.clone()))),
         );
     }
+}
+
+/// `Fragment` and the aliases it is imported under (`_Fragment`, `_Fragment1`, ...): their children
+/// are a plain child list, never slots.
+fn is_fragment_name(name: &str) -> bool {
+    name.strip_prefix('_')
+        .unwrap_or(name)
+        .strip_prefix(FRAGMENT)
+        .map(|rest| rest.bytes().all(|b| b.is_ascii_digit()))
+        .unwrap_or_default()
 }
 
 fn inject_define_component_option(call: &mut CallExpr, name: &'static str, value: Expr) {
